@@ -5,6 +5,8 @@ Driver glue: reading dumped trees / patterns / environments from JSON, the drive
 import Driver.Basic
 import Std.Data.HashMap
 import AstGrepVerif.Model.Pattern
+import AstGrepVerif.Lemmas.MatchSound
+import AstGrepVerif.Props.C02
 
 open Lean AGV
 
@@ -139,7 +141,18 @@ def opMatch : SHandler := fun st a => do
   | .ok none => pure (st, Json.mkObj [("m", Json.bool false), ("env", envJson Env.empty), ("len", len)])
   | .error e => pure (st, abnJson e)
 
+def opHolesOK : SHandler := fun st a => do
+  let d ← getDoc st a
+  let n ← getNode d a
+  let hs ← (← getArr a "holes").toList.mapM parseHole
+  pure (st, Json.bool (AGV.C02.HolesOK n hs))
+
+def opPatternWf : SHandler := fun st a => do
+  let p ← parsePattern (← a.getObjVal? "p")
+  pure (st, Json.bool p.wf)
+
 def treeOps : List (String × SHandler) := [
+  ("pattern_wf", opPatternWf), ("info:holes_ok", opHolesOK),
   ("tree", opTree), ("cut_shape", opCutShape), ("match", opMatch)]
 
 end Driver
